@@ -215,18 +215,25 @@ def _check_eval(ctx, rep, fo: Folder, f: Func, ev: ast.Call, thorough: bool):
                     if isinstance(n, ast.Call) and isinstance(n.func, ast.Name) and n.func.id == f.name:
                         sites.append((g2, n))
         union, all_guarded = [], bool(sites)
+        n_derived = 0
         for g2, n in sites:
             try:
                 b, errs = bind_call(n, f, False)
             except Exception:
                 b, errs = {}, ["bind"]
             a = b.get(var)
+            if isinstance(a, ast.Name) and not errs and a.id not in g2.params and a.id not in {p_.arg for p_ in g2.all_params}:
+                # the caller dispatches over a local it derives itself (a part of a composite name): outside the folded
+                # fragment, exactly as an eval over such a local written out in the caller would be
+                rep.info("Y1", g2, "%s(%s)" % (f.name, a.id), "dispatch over the derived local %s: outside the folded fragment" % a.id, node=n)
+                n_derived += 1
+                continue
             v = guard_values(ctx, fo, g2, n, a.id) if isinstance(a, ast.Name) and not errs else None
             if v is None:
                 all_guarded = False
                 break
             union += [x for x in v if x not in union]
-        if all_guarded:
+        if all_guarded and len(sites) > n_derived:
             vals = union
     if vals is None:
         rep.violation("Y2", f, con, "this eval is not dominated by any catalogue membership test on '%s': an uncatalogued name is looked up "
